@@ -275,7 +275,7 @@ struct String {
     }
 
     inline void StepBack(const SizeT len) noexcept {
-        if (len <= Length()) {
+        if ((len <= Length()) && (Storage() != nullptr)) {
             Char_T     *str     = Storage();
             const SizeT new_len = (Length() - len);
 
